@@ -95,6 +95,9 @@ type RegisterFn = unsafe extern "C" fn(
 
 static REGISTERED: AtomicBool = AtomicBool::new(false);
 static RECORDING: AtomicBool = AtomicBool::new(false);
+/// copy the bytes of every recorded write (off for observations that only count calls)
+static RECORD_DATA: AtomicBool = AtomicBool::new(true);
+static RECORD_ONLY_FSYNC: AtomicBool = AtomicBool::new(false);
 static ROOT: Mutex<String> = Mutex::new(String::new());
 static LOG: Mutex<Vec<Rec>> = Mutex::new(Vec::new());
 static FDS: Mutex<Option<HashMap<i32, (String, String)>>> = Mutex::new(None);
@@ -398,6 +401,9 @@ extern "C" fn post_cb(ev: *const Event, result: i64, err: i32) {
     if !RECORDING.load(SeqCst) || QUIET.with(|c| c.get()) {
         return;
     }
+    if RECORD_ONLY_FSYNC.load(SeqCst) && ev.kind != EV_FSYNC {
+        return;
+    }
     let kind = match ev.kind {
         EV_OPEN => {
             if ev.flags & libc::O_CREAT != 0 {
@@ -418,7 +424,7 @@ extern "C" fn post_cb(ev: *const Event, result: i64, err: i32) {
         EV_PWRITE => Kind::Illegal("pwrite".into()),
         _ => Kind::Illegal(format!("other-{}", ev.sub)),
     };
-    let data = if ev.kind == EV_WRITE && result > 0 && !ev.buf.is_null() {
+    let data = if ev.kind == EV_WRITE && result > 0 && !ev.buf.is_null() && RECORD_DATA.load(SeqCst) {
         unsafe { std::slice::from_raw_parts(ev.buf, result as usize) }.to_vec()
     } else {
         Vec::new()
@@ -449,6 +455,14 @@ pub fn record_start() {
     RECORDING.store(true, SeqCst);
 }
 
+/// Start recording calls without copying written bytes, and only calls of the given kind
+/// (fsync observation under heavy write load).
+pub fn record_start_fsync_only() {
+    RECORD_DATA.store(false, SeqCst);
+    RECORD_ONLY_FSYNC.store(true, SeqCst);
+    record_start();
+}
+
 /// Current length of the log.
 pub fn log_len() -> usize {
     LOG.lock().unwrap().len()
@@ -457,6 +471,8 @@ pub fn log_len() -> usize {
 /// Stop recording and return the log.
 pub fn record_stop() -> Vec<Rec> {
     RECORDING.store(false, SeqCst);
+    RECORD_DATA.store(true, SeqCst);
+    RECORD_ONLY_FSYNC.store(false, SeqCst);
     std::mem::take(&mut *LOG.lock().unwrap())
 }
 
